@@ -4,5 +4,5 @@ CONSTANTS
   Candidates <- CandidateSet
   RoundOpts <- MCRoundOpts
   OneStep = TRUE
-INVARIANTS CurValid OutValid SignLaws AddLaws CmpLaws RoundLaws TotalLaws NewLaws
+INVARIANTS CurValid OutValid SignLaws AddLaws CmpLaws RoundLaws TotalLaws NewLaws PartialLaws
 CHECK_DEADLOCK FALSE
